@@ -216,9 +216,90 @@ def check_roundtrip(sp, cname, kind, indent, text, container):
     return v
 
 
+MANY_PER_FILE = 48
+
+
+def many_files():
+    """All (codec, spelling) pairs distributed over files of 48 sections,
+    each section under a DIFFERENT spelling: (a) in catalogue order, (b)
+    interleaved so that BOM-emitting codecs follow many others, (c) BOM
+    codecs' spellings after 12 / 16 / 17 / 32 / 40 other encodings."""
+    cat = catalogue()
+    pairs = [(c, sp) for c in sorted(cat) for sp in spellings(c, cat[c])]
+    bom = [p_ for p_ in pairs if ''.encode(p_[0])]
+    plain = [p_ for p_ in pairs if not ''.encode(p_[0])]
+    files = []
+    for lo in range(0, len(pairs), MANY_PER_FILE):
+        files.append(pairs[lo:lo + MANY_PER_FILE])
+    # one spelling per plain codec first, then BOM spellings
+    firsts = []
+    seen = set()
+    for c, sp in plain:
+        if c not in seen:
+            seen.add(c)
+            firsts.append((c, sp))
+    for k in (12, 15, 16, 17, 32, 40, len(firsts)):
+        for lo in range(0, len(bom), 24):
+            files.append(firsts[:k] + bom[lo:lo + 24])
+    return files
+
+
+def check_many(pairs_, le, use_diff):
+    """One file, one section per (codec, spelling); writer bytes ==
+    reference, reader returns every text."""
+    calls = []
+    for c, sp in pairs_:
+        ch = probe_char(c) or 'y'
+        text = 'x' + ch + ('\r\n' if le == 'dos' else '\n') + 'second'
+        calls.append(['change', None])
+        calls.append(['preamble', text, sp, 2, le, None])
+        calls.append(['file', None])
+        calls.append(['meta', {'k': 'v'}, sp])
+        if use_diff:
+            nlb = spec.nl(le, c)
+            body = spec.enc_nobom('+a', c) + nlb + spec.enc_nobom('-b', c) \
+                + nlb
+            calls.append(['diff', body, None, sp, le])
+    v = []
+    want, want_recs = spec.serialize(calls, 'utf-8')
+    try:
+        w, st, offs = run_writer(calls, 'utf-8')
+        data = st.getvalue()
+        if data != want:
+            i = next((k for k, (a, b) in enumerate(zip(data, want))
+                      if a != b), min(len(data), len(want)))
+            v.append(('writer-bytes:many-encodings',
+                      'file with %d differently spelled encodings: first '
+                      'difference at byte %d: %r vs %r'
+                      % (len(pairs_), i, data[i - 40:i + 40],
+                         want[i - 40:i + 40])))
+    except Exception as e:
+        v.append(('writer-raised:%s:%s:many-encodings'
+                  % (type(e).__name__, site_of(e)), repr(e)))
+    recs, exc, _, _ = read_all(want)
+    if exc is not None:
+        v.append(('reader-raised:%s:%s:many-encodings'
+                  % (type(exc).__name__, site_of(exc)),
+                  'file with %d differently spelled encodings (%s ...): %r'
+                  % (len(pairs_), [sp for c, sp in pairs_[:3]], exc)))
+    else:
+        for r, wr in zip(recs, want_recs):
+            if 'text' in wr and not typed_eq(r.get('text'), wr['text']):
+                v.append(('reader-text:many-encodings',
+                          'section at line %r: %r expected %r'
+                          % (r.get('line'), r.get('text'), wr['text'])))
+                break
+            if 'diff' in wr and not typed_eq(r.get('diff'), wr['diff']):
+                v.append(('reader-diff:many-encodings',
+                          'section at line %r' % (r.get('line'),)))
+                break
+    return v
+
+
 def plan(tier):
     cat = catalogue()
     units = sorted(cat)
+    units += [('many', i) for i in range(len(many_files()))]
     nsp = sum(len(spellings(c, l)) for c, l in cat.items())
     return {
         'units': units,
@@ -248,6 +329,25 @@ def plan(tier):
 
 def run_unit(cname, tier):
     acc = Acc()
+    if isinstance(cname, tuple) and cname[0] == 'many':
+        pairs_ = many_files()[cname[1]]
+        for le in ('unix', 'dos'):
+            for use_diff in (False, True):
+                viols = check_many(pairs_, le, use_diff)
+                acc.evals += 1
+                acc.states += 1
+                acc.transitions += 3
+                acc.validated += 1
+                acc.nontrivial += 1
+                for key, msg in viols:
+                    acc.violation(key, msg[:800], {'kind': 'many',
+                                                   'index': cname[1],
+                                                   'le': le,
+                                                   'diff': use_diff})
+                acc.outcome('ok' if not viols else 'violation')
+        acc.sample({'many_encodings_in_one_file':
+                    [sp for c, sp in pairs_[:6]]}, 1)
+        return acc
     cat = catalogue()
     sps = spellings(cname, cat[cname])
     for sp in sps:
@@ -309,6 +409,10 @@ def replay(payload):
         viols = check_roundtrip(payload['sp'], payload['cname'],
                                 payload['le'], payload['indent'],
                                 payload['text'], payload['container'])
+    elif payload.get('kind') == 'many':
+        viols = check_many(many_files()[payload['index']], payload['le'],
+                           payload['diff'])
+        return [{'key': k, 'msg': m[:800]} for k, m in viols]
     elif payload.get('kind') == 'rt-long':
         viols = check_roundtrip(payload['sp'], payload['cname'], 'unix', 4,
                                 long_text(payload['cname'], payload['n']),
